@@ -2,6 +2,7 @@ package main
 
 import (
 	"fmt"
+	"reflect"
 	"sort"
 	"strings"
 
@@ -225,6 +226,14 @@ func genSchema(r *Rng) *gSchema {
 			}
 		}
 		t.fields = append(t.fields, mkFields(strings.ToLower(o)+"f", 2+r.Intn(4))...)
+		// fields with the same name in several object types (members of one union may define them with
+		// different types and arguments, or not at all)
+		for _, cf := range mkFields("c", 2) {
+			if r.Chance(55) {
+				cf.args = nil
+				t.fields = append(t.fields, cf)
+			}
+		}
 		add(t)
 	}
 	q := &gType{kind: "object", name: "Query"}
@@ -236,7 +245,7 @@ func genSchema(r *Rng) *gSchema {
 // ---- data graph -----------------------------------------------------------------------------------
 
 type gDVal struct {
-	kind string // nil | int | str | bool | ref | list
+	kind string // nil | tnil (typed nil pointer of Go type s) | int | str | bool | ref | list
 	i    int64
 	s    string
 	b    bool
@@ -361,6 +370,9 @@ func genGraph(r *Rng, s *gSchema) *gGraph {
 			return &gDVal{kind: "nil"}
 		}
 		c := Pick(r, cs)
+		if r.Chance(6) {
+			return &gDVal{kind: "tnil", s: c} // a nil *T: null to GraphQL, not == nil to Go
+		}
 		return &gDVal{kind: "ref", ref: Pick(r, g.byType[c])}
 	}
 	for _, n := range g.nodes {
@@ -379,6 +391,8 @@ type gWorld struct {
 	objs  []interface{}
 	calls *[]T
 	callN *int
+	// lists are long-lived values of the data graph: the same Go slice is handed out on every call
+	lists map[*gDVal]interface{}
 }
 
 type gnode struct {
@@ -417,12 +431,71 @@ func (w *gWorld) goValue(v *gDVal) interface{} {
 		return v.b
 	case "ref":
 		return w.objs[v.ref]
+	case "tnil":
+		return typedNil(v.s)
 	case "list":
+		if w.lists == nil {
+			w.lists = map[*gDVal]interface{}{}
+		}
+		if l, ok := w.lists[v]; ok {
+			return l
+		}
 		l := make([]interface{}, len(v.list))
 		for i, x := range v.list {
 			l[i] = w.goValue(x)
 		}
-		return l
+		var out interface{} = l
+		// a homogeneous list of objects is a typed Go slice half of the time ([]*T0 …): the reflection arm of resolveList
+		if len(l) > 0 && len(v.list)%2 == 0 {
+			var et reflect.Type
+			same := true
+			for _, x := range v.list {
+				if x.kind != "ref" && x.kind != "tnil" {
+					same = false
+					break
+				}
+				var tt reflect.Type
+				if x.kind == "ref" {
+					tt = reflect.TypeOf(w.objs[x.ref])
+				} else {
+					tt = reflect.TypeOf(typedNil(x.s))
+				}
+				if et == nil {
+					et = tt
+				} else if et != tt {
+					same = false
+				}
+			}
+			if same && et != nil {
+				sl := reflect.MakeSlice(reflect.SliceOf(et), len(l), len(l))
+				for i := range l {
+					sl.Index(i).Set(reflect.ValueOf(l[i]))
+				}
+				out = sl.Interface()
+			}
+		}
+		w.lists[v] = out
+		return out
+	}
+	return nil
+}
+
+func typedNil(goType string) interface{} {
+	switch goType {
+	case "T0":
+		return (*T0)(nil)
+	case "T1":
+		return (*T1)(nil)
+	case "T2":
+		return (*T2)(nil)
+	case "T3":
+		return (*T3)(nil)
+	case "T4":
+		return (*T4)(nil)
+	case "T5":
+		return (*T5)(nil)
+	case "T6":
+		return (*T6)(nil)
 	}
 	return nil
 }
@@ -589,6 +662,29 @@ func (d *gDoc) genSels(r *Rng, s *gSchema, ty string, depth int, o docOpts, inFr
 	switch t.kind {
 	case "object", "iface":
 		fields = t.fields
+	case "union":
+		// ggql resolves a field selected directly under a union-typed field against the member type of each
+		// value: take the definition from one member (others may lack it or type it differently)
+		if r.Chance(60) {
+			seen := map[string]bool{}
+			ms := append([]string{}, t.members...)
+			for i := range ms {
+				j := i + r.Intn(len(ms)-i)
+				ms[i], ms[j] = ms[j], ms[i]
+			}
+			for _, m := range ms {
+				for _, f := range s.by[m].fields {
+					req := false
+					for _, a := range f.args {
+						req = req || a.required
+					}
+					if !seen[f.name] && !req {
+						seen[f.name] = true
+						fields = append(fields, f)
+					}
+				}
+			}
+		}
 	}
 	var out []*gSel
 	n := 1 + r.Intn(4)
@@ -608,10 +704,16 @@ func (d *gDoc) genSels(r *Rng, s *gSchema, ty string, depth int, o docOpts, inFr
 				if o.collisions && r.Chance(40) {
 					sel.alias = "k"
 				} else {
-					sel.alias = fmt.Sprintf("al%d", r.Intn(1000))
+					sel.alias = Pick(r, []string{fmt.Sprintf("al%d", r.Intn(1000)), "data", "errors", "query", fmt.Sprintf("al%d", r.Intn(1000))})
 				}
 			}
 			for _, a := range f.args {
+				if t.kind == "union" {
+					// no arguments on a field selected directly under a union: Field.Args is re-ordered once, for the
+					// member type met first (sortArgs through Field.ConType), which the stateless walk model does not
+					// follow (DESIGN.md D61)
+					break
+				}
 				if a.required || r.Chance(50) {
 					sel.args = append(sel.args, gArgVal{name: a.name, lit: fmt.Sprint(r.Intn(9))})
 				}
